@@ -165,6 +165,26 @@ def isImfFixdate (d : Bytes) : Bool :=
 
 /-! ### C04 -/
 
+/-- RFC 7230 §4.1 chunked coding of `body` with chunks of `chunkSize` bytes (the last one
+    shorter), followed by the terminal chunk.  `fuel` ≥ number of chunks. -/
+def enchunkAux : Nat → Bytes → Bytes
+  | 0, _ => []
+  | fuel + 1, body =>
+    if body.isEmpty then []
+    else chunkFrame (body.take chunkSize) ++ enchunkAux fuel (body.drop chunkSize)
+
+def enchunk (body : Bytes) : Bytes := enchunkAux (body.length + 1) body ++ b!"0\r\n\r\n"
+
+/-- what the application may hand in: header names are non-empty and free of `:` CR LF,
+    values free of CR LF; a declared length equals the body length. -/
+def wfHeader (h : Header) : Bool :=
+  !h.name.isEmpty && !h.name.contains 58 && !h.name.contains 10 && !h.name.contains 13
+    && !h.value.contains 10 && !h.value.contains 13
+
+def wfResp (r : Resp) (bodyLen : Nat) : Bool :=
+  r.headers.all wfHeader && r.headers.all (fun h => !isAutoFraming h)
+    && (match r.dataLength with | some n => n == bodyLen | none => true)
+
 /-- C04 oracle on output bytes: an independent client recovers status and exactly the body,
     consumes the whole message, and does not rely on connection close. -/
 def c04Holds (reqIsHead : Bool) (status : Nat) (body : Bytes) (out : Bytes) : Bool :=
